@@ -31,3 +31,12 @@ def signC (x : α) : Int := if x < Lit.lit 0 then -1 else if Lit.lit 0 < x then 
 instance : Inhabited Rat := ⟨0⟩
 
 end DV
+
+namespace DV
+/-- Python's `int(x)` on a float (truncation toward zero); `none` for inf/nan (Python raises) -/
+class HasTrunc (α : Type) where
+  truncInt : α → Option Int
+
+instance : HasTrunc Rat := ⟨fun x => some (Int.tdiv x.num x.den)⟩
+instance : HasTrunc Float := ⟨fun x => if x.isNaN || x.isInf then none else some x.toInt64.toInt⟩
+end DV
